@@ -252,6 +252,9 @@ func (e c07) genSweep(seed, idx uint64) any {
 			p.Cfgs = append(p.Cfgs, genCfgX(r))
 		}
 	}
+	if sz, ok := dict.sizes.pick(r, 0.04); ok && sz > 100 {
+		padOriginsTo(p.Cfgs, sz) // a mined size threshold applies to every configuration of the run
+	}
 	p.InitCfg = r.Intn(n+1) - 1
 	p.InitDebug = p.InitCfg >= 0 && r.P(0.5)
 	pool := discriminating(r, p.Cfgs)
@@ -300,6 +303,9 @@ func (e c07) Gen(r *R, tier string) any {
 		} else {
 			p.Cfgs = append(p.Cfgs, genCfgX(r))
 		}
+	}
+	if sz, ok := dict.sizes.pick(r, 0.04); ok && sz > 100 {
+		padOriginsTo(p.Cfgs, sz)
 	}
 	p.InitCfg = r.Intn(n+1) - 1
 	p.InitDebug = p.InitCfg >= 0 && r.P(0.5)
